@@ -14,7 +14,9 @@ open Spine.UC Spine.UCS
 
 /-- CLAUSE 1 (use-case data; code as it is = `Cfg.clean`), FULL STRENGTH: along ANY history of helper calls
     (`AddUseCaseSupport`, `SetUseCaseAvailability`, `RemoveUseCaseSupport`, `RemoveAllUseCaseSupports` through
-    EntityLocal, the helpers of package model run by the application on a copy of its own, hand-outs), every value
+    EntityLocal; the helpers of package model run by the application on a fresh copy of its own (`scratch`) or on a
+    value it was handed earlier (`own`: that holder's value becomes the helper's result, the value AS HANDED OUT is
+    what the theorem speaks about); hand-outs), every value
     handed out at ANY point — and the store's value at that point — reads the same after ANY later history. -/
 theorem c11_usecase_snapshots_stable (pre post : List Ev) :
     let s1 := runEvs .clean {} pre
@@ -38,6 +40,17 @@ example :
     s1.handles.map s2.h.view = s1.handles.map s1.h.view ∧ (s1.handles.map s1.h.view).map List.length = [3] ∧
       (s2.h.view s2.store).map (fun i => (i.ent, i.sup.map (·.name), i.sup.map (·.avail))) =
         [([2], [1], [false]), ([1, 1], [2, 3], [true, true])] := by decide
+
+/-- non-vacuity with the application modifying a value it holds: two holders of the same hand-out state; the first
+    adds a use case to ITS value (append from the same base the store appends from) — the second holder's value and
+    the store are unaffected -/
+example :
+    let pre : List Ev := [.op (.add [1] 1 ⟨1, 0, true, [], 1⟩), .op (.add [1] 1 ⟨2, 0, true, [], 1⟩), .op (.add [1] 1 ⟨3, 0, true, [], 1⟩),
+                          .copy, .copy, .op (.add [1] 1 ⟨0, 0, true, [], 1⟩)]
+    let s1 := runEvs .clean {} pre
+    let s2 := step .clean s1 (.own 0 (.add [1] 1 ⟨0, 2, false, [], 1⟩))
+    (s2.handles.map s2.h.view).map (·.map (·.sup.map (·.version))) = [[[0, 0, 0, 2]], [[0, 0, 0]]] ∧
+      s2.h.view s2.store = s1.h.view s1.store ∧ (s1.h.view s1.store).map (·.sup.map (·.version)) = [[0, 0, 0, 0]] := by decide
 
 /-- THE BRIDGE between the regenerated fact "the helpers write only through slices they allocated"
     (`Props.C11Gen.c11_helpers_write_only_own_slices`) and the snapshot clause: ANY program of heap writes — not only
